@@ -49,6 +49,9 @@ class Dut:
     def start(self, inputs):
         self.b.start(inputs)
         self.prev = dict(inputs)
+        # concurrent assertions fed through an intermediate boolean signal evaluate once with that signal's
+        # initial value (false) during initialisation; those firings are not attributable to the run
+        self.init_asserts = len(self.b.sim.asserts)
 
     def clock(self, inputs):
         """one period: inputs present at the active edge; returns after the active edge settled"""
@@ -69,8 +72,8 @@ class Dut:
         return self.b.raw(n)
 
     def problems(self):
-        if self.b.sim.asserts:
-            return "assert", {"asserts": [str(a) for a in self.b.sim.asserts[:3]]}
+        if len(self.b.sim.asserts) > getattr(self, "init_asserts", 0):
+            return "assert", {"asserts": [str(a) for a in self.b.sim.asserts[self.init_asserts : self.init_asserts + 3]]}
         if self.b.sim.driver_conflicts:
             return "driver", {"conflicts": [str(a) for a in self.b.sim.driver_conflicts[:3]]}
         return None
